@@ -421,12 +421,26 @@ def inline_simple_calls(repo, func, node=None, depth=2):
             if callee is None or callee is func:
                 return call
             body = [st for st in callee.node.body if not (isinstance(st, ast.Expr) and isinstance(st.value, ast.Constant))]
+            if len(body) > 1 and isinstance(body[-1], ast.Return) and body[-1].value is not None and all(isinstance(st, ast.Assign) and len(st.targets) == 1 and isinstance(st.targets[0], ast.Name) for st in body[:-1]):
+                # pure temporaries followed by one return: the temporaries are substituted into the returned expression
+                tnames = [st.targets[0].id for st in body[:-1]]
+                if len(set(tnames)) == len(tnames) and not (set(tnames) & set(callee.params)):
+                    tdefs = {}
+                    for st in body[:-1]:
+                        tdefs[st.targets[0].id] = [ast.parse(resolve_expr(None, st.value, defs=tdefs), mode="eval").body]
+                    rv = ast.parse(resolve_expr(None, body[-1].value, defs=tdefs), mode="eval").body
+                    body = [ast.copy_location(ast.Return(value=rv), body[-1])]
+                    ast.fix_missing_locations(body[0])
             if len(body) != 1 or not isinstance(body[0], ast.Return) or body[0].value is None:
                 return call
             params = callee.params[1:] if (callee.cls and isinstance(call.func, ast.Attribute)) else callee.params
             if any(isinstance(a, ast.Starred) for a in call.args) or len(call.args) > len(params):
                 return call
             mapping = {p_: a for p_, a in zip(params, call.args)}
+            if callee.cls and isinstance(call.func, ast.Attribute) and callee.params and callee.params[0] == "self":
+                if not isinstance(call.func.value, (ast.Name, ast.Attribute)):
+                    return call
+                mapping["self"] = call.func.value
             for k in call.keywords:
                 if k.arg is None:
                     return call
@@ -475,6 +489,10 @@ def _always_returns(stmts):
         return True
     if isinstance(last, ast.If):
         return _always_returns(last.body) and _always_returns(last.orelse)
+    if isinstance(last, ast.With):
+        return _always_returns(last.body)
+    if isinstance(last, ast.Try):
+        return _always_returns(last.body) and all(_always_returns(h.body) for h in last.handlers)
     return False
 
 
@@ -494,6 +512,21 @@ def returns_to_assign(stmts, make):
             b = returns_to_assign(list(st.body) + ([] if _always_returns(st.body) else copy.deepcopy(rest)), make)
             o = returns_to_assign(list(st.orelse) + ([] if _always_returns(st.orelse) else copy.deepcopy(rest)), make)
             node = ast.copy_location(ast.If(test=st.test, body=b or [ast.Pass()], orelse=o), st)
+            out.append(node)
+            return out
+        if isinstance(st, ast.With) and _contains_return(st) and (i == len(stmts) - 1 or _always_returns(st.body)):
+            node = copy.copy(st)
+            node.body = returns_to_assign(list(st.body) + ([] if _always_returns(st.body) else []), make)
+            out.append(node)
+            return out
+        if isinstance(st, ast.Try) and _contains_return(st) and not any(_contains_return(x) for x in list(st.orelse) + list(st.finalbody)) and (i == len(stmts) - 1 or (_always_returns(st.body) and all(_always_returns(h.body) for h in st.handlers))):
+            node = copy.copy(st)
+            node.body = returns_to_assign(list(st.body), make)
+            node.handlers = []
+            for h in st.handlers:
+                h2 = copy.copy(h)
+                h2.body = returns_to_assign(list(h.body), make)
+                node.handlers.append(h2)
             out.append(node)
             return out
         if _contains_return(st):
@@ -527,17 +560,23 @@ def inline_tail_calls(repo, func, depth=2, keep=None):
         elif isinstance(st, ast.Expr) and isinstance(st.value, ast.Call):
             call, kind = st.value, "expr"
         callee = repo.resolve_call(func, call) if call is not None else None
-        if callee is None or callee is func or same_func(callee, func) or callee.module is not func.module or callee.cls != func.cls and callee.cls is not None:
+        if callee is None or callee is func or same_func(callee, func) or callee.module is not func.module:
             return None
+        recv = None
+        if callee.cls != func.cls and callee.cls is not None:
+            # a method of a same-module class called on a local instance (`t = Table(); t.add(x)`): self := t
+            if not (isinstance(call.func, ast.Attribute) and isinstance(call.func.value, ast.Name) and repo.local_class_of(func, call.func.value.id) == (callee.module.name, callee.cls) and callee.params and callee.params[0] == "self" and callee.name != "__init__"):
+                return None
+            recv = call.func.value.id
         if any(isinstance(x, (ast.Yield, ast.YieldFrom)) for x in ast.walk(callee.node)):
             return None
         if keep is not None and keep(callee):
             return None
         cbody = [x for x in callee.node.body if not (isinstance(x, ast.Expr) and isinstance(x.value, ast.Constant))]
-        if (len(cbody) < 2 and kind != "expr") or any(isinstance(a, ast.Starred) for a in call.args):
+        if (len(cbody) == 1 and isinstance(cbody[0], ast.Return) and kind != "expr") or not cbody or any(isinstance(a, ast.Starred) for a in call.args):
             return None  # single-return helpers are handled by expression inlining
-        if kind == "expr" and (callee.cls is not None or any(isinstance(x, ast.Return) and x.value is not None for x in ast.walk(callee.node))):
-            return None  # only plain procedures (module-level, no result) are inlined at statement calls
+        if kind == "expr" and ((callee.cls is not None and recv is None) or any(isinstance(x, ast.Return) and x.value is not None for x in ast.walk(callee.node))):
+            return None  # only plain procedures (no result) are inlined at statement calls
         params = callee.params[1:] if (callee.cls and isinstance(call.func, ast.Attribute)) else callee.params
         amap = {p_: a for p_, a in zip(params, call.args)}
         for k in call.keywords:
@@ -552,6 +591,8 @@ def inline_tail_calls(repo, func, depth=2, keep=None):
             if isinstance(x, ast.Name) and isinstance(x.ctx, ast.Store):
                 written.add(x.id)
         names, exprs, pre = {}, {}, []
+        if recv is not None:
+            names["self"] = recv
         for p_, a in amap.items():
             if isinstance(a, ast.Name):
                 names[p_] = a.id
@@ -595,10 +636,104 @@ def inline_tail_calls(repo, func, depth=2, keep=None):
                 return None
         return pre + body
 
+    def expand_generator_loop(st):
+        """for T in gen(args): BODY, gen = `pre...; while/for ...: A; yield E` (one yield, last statement of the
+        generator's only top-level loop, which is its last statement)  ->  pre; loop: A; T = E; BODY"""
+        if not (isinstance(st, ast.For) and isinstance(st.iter, ast.Call) and not st.orelse):
+            return None
+        callee = repo.resolve_call(func, st.iter)
+        if callee is None or same_func(callee, func) or callee.module is not func.module or callee.cls is not None:
+            return None
+        if keep is not None and keep(callee):
+            return None
+        cbody = [x for x in callee.node.body if not (isinstance(x, ast.Expr) and isinstance(x.value, ast.Constant))]
+        yields = [x for x in ast.walk(callee.node) if isinstance(x, (ast.Yield, ast.YieldFrom))]
+        if len(yields) != 1 or not isinstance(yields[0], ast.Yield) or yields[0].value is None or not cbody:
+            return None
+        gloop = cbody[-1]
+        if not isinstance(gloop, (ast.While, ast.For)) or gloop.orelse or not gloop.body:
+            return None
+        last = gloop.body[-1]
+        if not (isinstance(last, ast.Expr) and last.value is yields[0]):
+            return None
+        if any(isinstance(x, ast.Return) for b_ in cbody[:-1] for x in ast.walk(b_)):
+            return None
+        if any(isinstance(x, ast.Return) and x.value is not None for x in ast.walk(gloop)):
+            return None
+        call = st.iter
+        if any(isinstance(a, ast.Starred) for a in call.args):
+            return None
+        params = callee.params
+        amap = {p_: a for p_, a in zip(params, call.args)}
+        for k in call.keywords:
+            if k.arg:
+                amap[k.arg] = k.value
+        for p_, d in zip(reversed(callee.node.args.args), reversed(callee.node.args.defaults)):
+            amap.setdefault(p_.arg, d)
+        if any(p_ not in amap for p_ in params):
+            return None
+        written = {x.id for x in ast.walk(callee.node) if isinstance(x, ast.Name) and isinstance(x.ctx, ast.Store)}
+        names, exprs, pre = {}, {}, []
+        for p_, a in amap.items():
+            if isinstance(a, ast.Name):
+                names[p_] = a.id
+            elif p_ in written or any(isinstance(x, ast.Call) for x in ast.walk(a)):
+                local = p_ if p_ not in caller_names else f"{p_}__{callee.name}"
+                if local != p_:
+                    names[p_] = local
+                pre.append(ast.copy_location(ast.Assign(targets=[ast.Name(id=local, ctx=ast.Store())], value=copy.deepcopy(a)), st))
+            else:
+                exprs[p_] = a
+        # the generator's own locals must not clash with the caller's names
+        for w in written - set(params):
+            if w in caller_names:
+                names[w] = f"{w}__{callee.name}"
+        body = [_Rename(names, exprs).visit(copy.deepcopy(x)) for x in cbody]
+        gl = body[-1]
+
+        class R2B(ast.NodeTransformer):
+            def visit_Return(self, node):
+                return ast.copy_location(ast.Break(), node)
+
+            def visit_FunctionDef(self, node):
+                return node
+
+            def visit_For(self, node):
+                return node if node is not gl else self.generic_visit(node)
+
+            def visit_While(self, node):
+                return node if node is not gl else self.generic_visit(node)
+
+        gl = R2B().visit(gl)
+        yexpr = gl.body[-1].value.value
+        tg = st.target
+        pairs = None
+        if isinstance(tg, ast.Name) and isinstance(yexpr, ast.Name):
+            pairs = [(yexpr.id, tg.id)]
+        elif isinstance(tg, ast.Tuple) and isinstance(yexpr, ast.Tuple) and len(tg.elts) == len(yexpr.elts) and all(isinstance(x, ast.Name) for x in list(tg.elts) + list(yexpr.elts)):
+            pairs = [(a.id, b.id) for a, b in zip(yexpr.elts, tg.elts)]
+        gen_locals = {x.id for b_ in body for x in ast.walk(b_) if isinstance(x, ast.Name) and isinstance(x.ctx, ast.Store)}
+        gen_names = {x.id for b_ in body for x in ast.walk(b_) if isinstance(x, ast.Name)}
+        if pairs and len({a for a, _ in pairs}) == len(pairs) and all(a in gen_locals and (b == a or b not in gen_names) for a, b in pairs):
+            # the generator's yielded variables become the loop variables of the caller
+            ren = {a: b for a, b in pairs if a != b}
+            body = [_Rename(ren, {}).visit(x) for x in body[:-1]] + [_Rename(ren, {}).visit(gl)]
+            gl = body[-1]
+            gl.body = gl.body[:-1] + list(st.body)
+            return pre + body[:-1] + [gl]
+        bind = ast.copy_location(ast.Assign(targets=[copy.deepcopy(st.target)], value=yexpr), st)
+        for x in ast.walk(bind.targets[0]):
+            if hasattr(x, "ctx"):
+                x.ctx = ast.Store()
+        gl.body = gl.body[:-1] + [bind] + list(st.body)
+        return pre + body[:-1] + [gl]
+
     def block(stmts):
         out = []
         for st in stmts:
             rep = expand(st)
+            if rep is None:
+                rep = expand_generator_loop(st)
             if rep is not None:
                 changed_any[0] = True
                 out.extend(rep)
@@ -831,6 +966,75 @@ def unroll_const_loops(func, limit=8):
     return Func(func.module, func.qualname, root, func.cls, func.parent)
 
 
+_MUTATORS = {"append", "extend", "insert", "pop", "popitem", "remove", "clear", "update", "add", "discard", "setdefault", "sort", "reverse", "popleft", "appendleft"}
+
+
+def inline_access_aliases(func):
+    """A Func in which a local alias of an access path (`node = table[rec.name]`, `tags = rec.tags`: single assignment to
+    a plain name, definition made of names / attributes / subscripts only, operands assigned at most once) is replaced by
+    its definition wherever it is read."""
+    import copy
+
+    defs = local_defs(func.node)
+    stored = {}
+    for n in ast.walk(func.node):
+        if isinstance(n, ast.Name) and isinstance(n.ctx, (ast.Store, ast.Del)):
+            stored[n.id] = stored.get(n.id, 0) + 1
+    # names that are mutated through (x[...] = ..., x.attr = ..., x.append()) stay as they are when they alias a fresh object
+    cands = {}
+    for name, ds in defs.items():
+        if len(ds) != 1 or ds[0] is None or stored.get(name, 0) != 1 or name in func.params:
+            continue
+        d = ds[0]
+        if not isinstance(d, (ast.Subscript, ast.Attribute)):
+            continue
+        if any(not isinstance(x, (ast.Name, ast.Attribute, ast.Subscript, ast.Constant, ast.Load, ast.Tuple, ast.UnaryOp, ast.USub)) for x in ast.walk(d)):
+            continue
+        if any(isinstance(x, ast.Name) and stored.get(x.id, 0) > (0 if x.id in func.params else 1) for x in ast.walk(d)):
+            continue
+        # the aliased object must not be mutated while the alias is live: no mutation of a root of the path inside the
+        # loop that contains the definition, nor anywhere after the definition
+        roots = {x.id for x in ast.walk(d) if isinstance(x, ast.Name)}
+        dstmt = next((st for st in ast.walk(func.node) if isinstance(st, ast.Assign) and st.value is d), None)
+        if dstmt is None:
+            continue
+        loop = None
+        for lp in ast.walk(func.node):
+            if isinstance(lp, (ast.For, ast.While)) and any(x is dstmt for x in ast.walk(lp)):
+                if loop is None or any(x is lp for x in ast.walk(loop)):
+                    loop = lp
+        in_loop = {id(x) for x in ast.walk(loop)} if loop is not None else set()
+        unsafe = False
+        for m_ in ast.walk(func.node):
+            base = None
+            if isinstance(m_, (ast.Subscript, ast.Attribute)) and isinstance(m_.ctx, (ast.Store, ast.Del)):
+                base = m_.value
+            elif isinstance(m_, ast.Call) and isinstance(m_.func, ast.Attribute) and m_.func.attr in _MUTATORS:
+                base = m_.func.value
+            if base is None:
+                continue
+            while isinstance(base, (ast.Subscript, ast.Attribute)):
+                base = base.value
+            if isinstance(base, ast.Name) and base.id in roots and (id(m_) in in_loop or getattr(m_, "lineno", 0) >= dstmt.lineno):
+                unsafe = True
+                break
+        if unsafe:
+            continue
+        cands[name] = d
+    if not cands:
+        return func
+
+    class T(ast.NodeTransformer):
+        def visit_Name(self, node):
+            if isinstance(node.ctx, ast.Load) and node.id in cands:
+                return ast.copy_location(self.visit(copy.deepcopy(cands[node.id])), node)
+            return node
+
+    root = T().visit(copy.deepcopy(func.node))
+    ast.fix_missing_locations(root)
+    return Func(func.module, func.qualname, root, func.cls, func.parent)
+
+
 def rotate_primed_loops(func):
     """A Func in which a primed loop   A; while c: B; A   (A = the same statements, textually, before the loop and at the
     end of its body; no `continue` in B) is written in the rotated form   while True: A; if not c: break; B."""
@@ -885,6 +1089,8 @@ def rotate_primed_loops(func):
 
 
 class _IfExpStmt(ast.NodeTransformer):
+    namedtuples = {}
+
     def _split(self, st, val, rebuild):
         test = val.test
         a, b = rebuild(val.body), rebuild(val.orelse)
@@ -900,6 +1106,16 @@ class _IfExpStmt(ast.NodeTransformer):
             # x = a or b   ==   if a: x = a   else: x = b
             ife = ast.IfExp(test=v.values[0], body=v.values[0], orelse=v.values[1])
             return self._split(st, ife, lambda w: ast.copy_location(ast.Assign(targets=st.targets, value=w), st))
+        nt = self.namedtuples.get(norm(v.func)) if isinstance(v, ast.Call) else None
+        if nt is not None and len(st.targets) == 1 and isinstance(st.targets[0], ast.Tuple) and len(st.targets[0].elts) == len(nt) and not any(isinstance(a, ast.Starred) for a in v.args):
+            # a, b = NT(x, y) / NT(f1=x, f2=y)  for a module-level namedtuple NT   ==   a, b = x, y
+            vals = dict(zip(nt, v.args))
+            for k in v.keywords:
+                if k.arg:
+                    vals[k.arg] = k.value
+            if all(f_ in vals for f_ in nt):
+                v = ast.copy_location(ast.Tuple(elts=[vals[f_] for f_ in nt], ctx=ast.Load()), v)
+                st = ast.copy_location(ast.Assign(targets=st.targets, value=v), st)
         if len(st.targets) == 1 and isinstance(st.targets[0], ast.Tuple) and isinstance(v, ast.Tuple) and len(v.elts) == len(st.targets[0].elts) and all(isinstance(t, ast.Name) for t in st.targets[0].elts):
             # a, b = x, y  with x, y not reading a, b   ==   a = x; b = y
             tnames = {t.id for t in st.targets[0].elts}
@@ -929,11 +1145,116 @@ def desugar_ifexp(func):
     """A Func in which `x = a if c else b` / `return a if c else b` statements are written as if/else statements."""
     import copy
 
-    node = _IfExpStmt().visit(copy.deepcopy(func.node))
+    tr = _IfExpStmt()
+    tr.namedtuples = {}
+    for name, e in func.module.consts.items():
+        if isinstance(e, ast.Call) and norm(e.func).endswith("namedtuple") and len(e.args) >= 2 and isinstance(e.args[1], (ast.List, ast.Tuple)) and all(isinstance(x, ast.Constant) for x in e.args[1].elts):
+            tr.namedtuples[name] = [x.value for x in e.args[1].elts]
+    node = tr.visit(copy.deepcopy(func.node))
     if ast.dump(node) == ast.dump(func.node):
         return func
     ast.fix_missing_locations(node)
     return Func(func.module, func.qualname, node, func.cls, func.parent)
+
+
+def desugar_comprehensions(func):
+    """A Func in which   X.extend(E for v in IT if C)   /   X = [E for v in IT if C]   /   X += [E for ...]   (one
+    generator) are written as loops that append."""
+    import copy
+
+    changed = [False]
+
+    def loop_of(comp, recv, at):
+        g = comp.generators[0]
+        app = ast.Expr(value=ast.Call(func=ast.Attribute(value=ast.Name(id=recv, ctx=ast.Load()), attr="append", ctx=ast.Load()), args=[comp.elt], keywords=[]))
+        body = [app]
+        for c in reversed(g.ifs):
+            body = [ast.If(test=c, body=body, orelse=[])]
+        lp = ast.For(target=g.target, iter=g.iter, body=body, orelse=[])
+        ast.copy_location(lp, at)
+        for x in ast.walk(lp):
+            if not hasattr(x, "lineno") and isinstance(x, (ast.stmt, ast.expr)):
+                ast.copy_location(x, comp)
+        return lp
+
+    def ok(comp):
+        return isinstance(comp, (ast.ListComp, ast.GeneratorExp)) and len(comp.generators) == 1 and not comp.generators[0].is_async
+
+    def block(stmts):
+        out = []
+        for st in stmts:
+            for fld in ("body", "orelse", "finalbody"):
+                lst = getattr(st, fld, None)
+                if isinstance(lst, list) and lst and isinstance(lst[0], ast.stmt) and not isinstance(st, (ast.FunctionDef, ast.AsyncFunctionDef, ast.ClassDef)):
+                    setattr(st, fld, block(lst))
+            if isinstance(st, ast.Try):
+                for h in st.handlers:
+                    h.body = block(h.body)
+            if isinstance(st, ast.Expr) and isinstance(st.value, ast.Call) and isinstance(st.value.func, ast.Attribute) and st.value.func.attr == "extend" and isinstance(st.value.func.value, ast.Name) and len(st.value.args) == 1 and ok(st.value.args[0]):
+                out.append(loop_of(st.value.args[0], st.value.func.value.id, st))
+                changed[0] = True
+                continue
+            if isinstance(st, ast.Assign) and len(st.targets) == 1 and isinstance(st.targets[0], ast.Name) and isinstance(st.value, ast.ListComp) and ok(st.value) and st.targets[0].id not in {x.id for x in ast.walk(st.value) if isinstance(x, ast.Name)}:
+                out.append(ast.copy_location(ast.Assign(targets=st.targets, value=ast.List(elts=[], ctx=ast.Load())), st))
+                out.append(loop_of(st.value, st.targets[0].id, st))
+                changed[0] = True
+                continue
+            if isinstance(st, ast.AugAssign) and isinstance(st.op, ast.Add) and isinstance(st.target, ast.Name) and isinstance(st.value, ast.ListComp) and ok(st.value):
+                out.append(loop_of(st.value, st.target.id, st))
+                changed[0] = True
+                continue
+            out.append(st)
+        return out
+
+    root = copy.deepcopy(func.node)
+    root.body = block(root.body)
+    if not changed[0]:
+        return func
+    ast.fix_missing_locations(root)
+    return Func(func.module, func.qualname, root, func.cls, func.parent)
+
+
+def normal(repo, func, keep=None):
+    """The standard normal form used by the path rules: helpers of the same module inlined at statement level (also
+    generators consumed by a for loop), single-return helpers inlined at expression level, string constants folded,
+    primed loops rotated, conditional expressions / `a or b` / parallel and namedtuple assignments written as statements,
+    boolean temporaries and access-path aliases replaced by their definitions."""
+    f = tail_inlined(repo, func, keep=keep)
+    f = inlined(repo, f)
+    f = with_str_consts(f)
+    f = rotate_primed_loops(f)
+    f = desugar_ifexp(f)
+    f = inline_bool_temps(f)
+    f = inline_access_aliases(f)
+    return f
+
+
+def normal_loops(repo, func, keep=None):
+    """normal() plus comprehensions that fill a list written as loops."""
+    return normal(repo, desugar_comprehensions(func), keep=keep)
+
+
+def regex_call(mod, call):
+    """(method, pattern text, [subject args]) for `re.<m>(PATTERN, ...)` with a literal / module-constant pattern and for
+    `COMPILED.<m>(...)` where COMPILED is a module-level `re.compile(PATTERN)`; None otherwise."""
+    if not isinstance(call, ast.Call) or not isinstance(call.func, ast.Attribute):
+        return None
+    m = call.func.attr
+    if m not in ("match", "fullmatch", "search", "findall", "split", "sub", "finditer"):
+        return None
+    base = call.func.value
+    if isinstance(base, ast.Name) and base.id == "re" and call.args:
+        p0 = call.args[0]
+        if isinstance(p0, ast.Name) and p0.id in mod.consts:
+            p0 = mod.consts[p0.id]
+        if isinstance(p0, ast.Constant) and isinstance(p0.value, str):
+            return (m, p0.value, list(call.args[1:]))
+        return None
+    if isinstance(base, ast.Name) and base.id in mod.consts:
+        d = mod.consts[base.id]
+        if isinstance(d, ast.Call) and norm(d.func) == "re.compile" and d.args and isinstance(d.args[0], ast.Constant) and isinstance(d.args[0].value, str):
+            return (m, d.args[0].value, list(call.args))
+    return None
 
 
 def same_func(a, b):
